@@ -840,7 +840,7 @@ func runCheck(o *Options) (int, *Evidence) {
 		}
 		if ob.Status == "discharged" {
 			nDis++
-			if len(samples) < 6 && hasTag(ob.Tags, o.prop) {
+			if len(samples) < 6 && hasTag(ob.Tags, o.prop) && len(ob.Queries) > 0 {
 				samples = append(samples, map[string]interface{}{"obligation": n, "queries": len(ob.Queries), "backend": ob.Solver, "trail": ob.Queries[0].q.Trail, "goal": clip(ob.Queries[0].q.Goal, 400)})
 			}
 			continue
